@@ -112,18 +112,52 @@ func r19_2(c *Ctx, r *Report) {
 		}
 		r.check(len(amb) == 0, rule, "LunarUtil.DAY names all have two runes and differ", c.pos(c.tables.pos("LunarUtil", "DAY")), strings.Join(amb, " "))
 	}
-	// shape of the renderings
-	for _, t := range []struct{ name, want string }{
-		{"calendar.(*Lunar).String", "GetYearInChinese 年 GetMonthInChinese 月 GetDayInChinese"},
-		{"calendar.(*Tao).ToString", "%s年%s月%s GetYearInChinese GetMonthInChinese GetDayInChinese"},
-		{"calendar.(*Foto).ToString", "%s年%s月%s GetYearInChinese GetMonthInChinese GetDayInChinese"},
-	} {
-		fn := c.Fn(r, rule, t.name)
+	// shape of the renderings: followed by the evaluator with the three Chinese renderings as abstract strings
+	for _, name := range []string{"calendar.(*Lunar).String", "calendar.(*Tao).ToString", "calendar.(*Foto).ToString"} {
+		fn := c.Fn(r, rule, name)
 		if fn == nil {
 			continue
 		}
-		got := renderingShape(fn)
-		r.check(got == t.want, rule, t.name+" renders year 年 month 月 day", c.fnPos(fn), "shape: "+got)
+		leaf := func(fr *evalFrame, v ssa.Value) (interface{}, bool) {
+			call, ok := v.(*ssa.Call)
+			if !ok || call.Common().StaticCallee() == nil || len(call.Common().Args) != 1 {
+				return nil, false
+			}
+			part := ""
+			switch call.Common().StaticCallee().Name() {
+			case "GetYearInChinese":
+				part = "Y"
+			case "GetMonthInChinese":
+				part = "M"
+			case "GetDayInChinese":
+				part = "D"
+			default:
+				return nil, false
+			}
+			// whose rendering: the object's own, or that of the lunar date it wraps
+			who := "?"
+			ofr, o := fr.origin(call.Common().Args[0])
+			if ofr.parent == nil && o == ssa.Value(fn.Params[0]) {
+				who = "own"
+			} else if rc, f, ok := getterField(c, o); ok && strings.HasSuffix(f, ".lunar") {
+				if ofr2, o2 := ofr.origin(rc); ofr2.parent == nil && o2 == ssa.Value(fn.Params[0]) {
+					who = "lunar"
+				}
+			}
+			return "<" + part + ":" + who + ">", true
+		}
+		ev := &evaluator{inline: func(f *ssa.Function) bool {
+			n := f.Name()
+			return inlineLibrary(f) && n != "GetYearInChinese" && n != "GetMonthInChinese" && n != "GetDayInChinese"
+		}, leaf: leaf}
+		res, outcome := ev.run(fn, nil, nil, nil, nil)
+		got := outcome + " " + ev.fail
+		if outcome == "return" && len(res) == 1 {
+			got = fmt.Sprint(res[0])
+		}
+		// month and day of a Taoist/Buddhist date are those of its lunar date (R17.2): either rendering is the same string
+		norm := strings.NewReplacer("<M:lunar>", "<M:own>", "<D:lunar>", "<D:own>").Replace(got)
+		r.check(norm == "<Y:own>年<M:own>月<D:own>", rule, name+" renders year 年 month 月 day", c.fnPos(fn), "the evaluator reads the result as: "+got)
 	}
 	// the year digits come from Sprintf("%d") of the year, one NUMBER entry per digit
 	for _, name := range []string{"calendar.(*Lunar).GetYearInChinese", "calendar.(*Tao).GetYearInChinese", "calendar.(*Foto).GetYearInChinese"} {
